@@ -2,6 +2,7 @@
   Lane functions of `Isa/Vec.lean` as arithmetic on `Nat` (core-only helper lemmas for C02/C11/C13/C14).
 -/
 import GoldilocksVerif.Isa.Vec
+import GoldilocksVerif.Lemmas.LaneAttr
 set_option linter.unusedSimpArgs false
 namespace GoldilocksVerif.Lane
 
@@ -178,5 +179,99 @@ theorem cmpgt32_shr_toNat (a b : BitVec 64) :
   simp only [slt32_iff, extract_lo32_toNat, extract_hi32_toNat]
   rw [ushr32_toNat]
   split <;> split <;> simp_all [BitVec.toNat_or] <;> rfl
+
+/-! ### both operand orders of the commutative lane operations, equivalent idioms; the `lane_nat` simp set -/
+
+theorem lo32_and_toNat (x : BitVec 64) : (0xFFFFFFFF#64 &&& x).toNat = x.toNat % 4294967296 := by
+  rw [BitVec.and_comm, and_lo32_toNat]
+theorem hi32_and_toNat (x : BitVec 64) : (0xFFFFFFFF00000000#64 &&& x).toNat = x.toNat / 4294967296 * 4294967296 := by
+  rw [BitVec.and_comm, and_hi32_toNat]
+theorem msb_xor_toNat (x : BitVec 64) :
+    (9223372036854775808#64 ^^^ x).toNat = (x.toNat + 9223372036854775808) % 18446744073709551616 := by
+  rw [BitVec.xor_comm, xor_msb_toNat]
+theorem and_mask_toNat (c : Bool) (k : BitVec 64) : (k &&& mask c).toNat = if c then k.toNat else 0 := by
+  rw [BitVec.and_comm, mask_and_toNat]
+theorem and_sqmask_toNat (x : BitVec 64) : (x &&& 8589934591#64).toNat = x.toNat % 8589934592 := by
+  rw [BitVec.toNat_and]
+  show x.toNat &&& (2^33 - 1) = _
+  rw [Nat.and_two_pow_sub_one_eq_mod]
+theorem sqmask_and_toNat (x : BitVec 64) : (8589934591#64 &&& x).toNat = x.toNat % 8589934592 := by
+  rw [BitVec.and_comm, and_sqmask_toNat]
+
+/-- `movshdup` in full: the high half in both halves -/
+theorem hdup_toNat (a : BitVec 64) : (hdup a).toNat = a.toNat / 4294967296 * 4294967296 + a.toNat / 4294967296 := by
+  unfold hdup
+  have ha := a.isLt
+  rw [BitVec.or_comm, or_hi_lo_toNat _ _ (by rw [and_hi32_toNat]; omega) (by rw [ushr32_toNat]; omega),
+    and_hi32_toNat, ushr32_toNat]
+
+/-- OR of two values with disjoint bit ranges (`h` a multiple of 2^k, `l` below 2^k) is their sum -/
+theorem or_disj_toNat (h l : BitVec 64) (k : Nat) (hh : h.toNat % 2^k = 0) (hl : l.toNat < 2^k) :
+    (h ||| l).toNat = h.toNat + l.toNat := by
+  rw [BitVec.toNat_or]
+  have e : h.toNat = (h.toNat / 2^k) <<< k := by
+    rw [Nat.shiftLeft_eq]
+    have := Nat.div_add_mod h.toNat (2^k)
+    rw [hh, Nat.add_zero, Nat.mul_comm] at this
+    exact this.symm
+  rw [e, ← Nat.shiftLeft_add_eq_or_of_lt hl]
+
+/-- `or` instead of `add` when a value shifted left by 33 is combined with a 33-bit value (either operand order) -/
+theorem shl33_or_and_toNat (r c : BitVec 64) : ((r <<< 33) ||| (c &&& 8589934591#64)).toNat =
+    (r.toNat * 8589934592) % 18446744073709551616 + c.toNat % 8589934592 := by
+  rw [or_disj_toNat _ _ 33 (by rw [shl_toNat]; omega) (by rw [and_sqmask_toNat]; omega),
+    shl_toNat, and_sqmask_toNat]
+theorem and_or_shl33_toNat (r c : BitVec 64) : ((c &&& 8589934591#64) ||| (r <<< 33)).toNat =
+    (r.toNat * 8589934592) % 18446744073709551616 + c.toNat % 8589934592 := by
+  rw [BitVec.or_comm, shl33_or_and_toNat]
+/-- the same with a shift by 32 and the low-half mask -/
+theorem shl32_or_and_toNat (r c : BitVec 64) : ((r <<< 32) ||| (c &&& 4294967295#64)).toNat =
+    (r.toNat * 4294967296) % 18446744073709551616 + c.toNat % 4294967296 := by
+  rw [or_disj_toNat _ _ 32 (by rw [shl_toNat]; omega) (by rw [and_lo32_toNat]; omega),
+    shl_toNat, and_lo32_toNat]
+theorem and_or_shl32_toNat (r c : BitVec 64) : ((c &&& 4294967295#64) ||| (r <<< 32)).toNat =
+    (r.toNat * 4294967296) % 18446744073709551616 + c.toNat % 4294967296 := by
+  rw [BitVec.or_comm, shl32_or_and_toNat]
+
+/-- unshifted value of a shifted representation -/
+def _root_.GoldilocksVerif.unsh (n : Nat) : Nat := (n + 9223372036854775808) % 18446744073709551616
+
+/-! Signed compares: stated over `unsh` (folded, so that no term `_ + 2^63` is visible to `simp`) and directly on the
+  masked forms.  (`simp` must never see the intermediate `mask (decide (_ < _))` under a `.toNat`: matching it
+  against `(?x + ?y).toNat` makes the unifier evaluate the comparison on 2^63-sized literals.) -/
+theorem xor_msb_unsh (x : BitVec 64) : (x ^^^ 9223372036854775808#64).toNat = unsh x.toNat := xor_msb_toNat x
+theorem msb_xor_unsh (x : BitVec 64) : (9223372036854775808#64 ^^^ x).toNat = unsh x.toNat := msb_xor_toNat x
+/-- `if u < v then a else b`, kept folded while `simp` is still rewriting inside `u` and `v`: an `if` whose
+  condition is rewritten by definitional lemmas keeps its old `Decidable` instance, and `split` then fails.
+  Unfold with `ltN_def` once the operands are in normal form, then `split`. -/
+def ltN (u v a b : Nat) : Nat := if u < v then a else b
+theorem ltN_def (u v a b : Nat) : ltN u v a b = if u < v then a else b := rfl
+
+theorem cmpgt64_toNat (a b : BitVec 64) :
+    (cmpgt64 a b).toNat = ltN (unsh b.toNat) (unsh a.toNat) 18446744073709551615 0 := by
+  rw [cmpgt64_eq, mask_toNat]; unfold unsh ltN
+  simp only [decide_eq_true_eq]
+theorem cmpgt64_and_toNat (a b k : BitVec 64) :
+    (cmpgt64 a b &&& k).toNat = ltN (unsh b.toNat) (unsh a.toNat) k.toNat 0 := by
+  rw [cmpgt64_eq, mask_and_toNat]; unfold unsh ltN
+  simp only [decide_eq_true_eq]
+theorem and_cmpgt64_toNat (a b k : BitVec 64) :
+    (k &&& cmpgt64 a b).toNat = ltN (unsh b.toNat) (unsh a.toNat) k.toNat 0 := by
+  rw [BitVec.and_comm, cmpgt64_and_toNat]
+theorem andnot_cmpgt64_toNat (a b k : BitVec 64) :
+    (~~~cmpgt64 a b &&& k).toNat = ltN (unsh b.toNat) (unsh a.toNat) 0 k.toNat := by
+  rw [cmpgt64_eq, mask_andnot_toNat]; unfold unsh ltN
+  simp only [decide_eq_true_eq]
+
+/-- the high half is already below 2^32 (`srli 32` feeding `mul_epu32` is the same as `movehdup` feeding it) -/
+theorem hi_mod_32 (x : BitVec 64) : x.toNat / 4294967296 % 4294967296 = x.toNat / 4294967296 := by
+  have := x.isLt; omega
+
+attribute [lane_nat] hi_mod_32 Nat.mod_mod BitVec.toNat_add BitVec.toNat_sub BitVec.toNat_ofNat Nat.reducePow Nat.reduceMod Nat.reduceMul
+  xor_msb_unsh msb_xor_unsh and_lo32_toNat lo32_and_toNat and_hi32_toNat hi32_and_toNat and_sqmask_toNat
+  sqmask_and_toNat ushr_toNat shl_toNat cmpgt64_toNat
+  mul32_toNat hdup_mod ldup_toNat blend32_2_toNat shl33_or_and_toNat and_or_shl33_toNat shl32_or_and_toNat
+  and_or_shl32_toNat
+attribute [lane_nat high] cmpgt32_shr_toNat cmpgt64_and_toNat and_cmpgt64_toNat andnot_cmpgt64_toNat
 
 end GoldilocksVerif.Lane
